@@ -495,11 +495,12 @@ func (s *session) inbound(c *vh.Ctx, sentinelSys byte) {
 	r := c.Rng
 	k := 1 + r.Intn(7)
 	type tx struct {
-		gap   bool
-		w     []byte
-		blk   e4Block
-		class string
-		bad   bool
+		gap      bool
+		w        []byte
+		blk      e4Block
+		class    string
+		bad      bool
+		lenFault int // > 0: the length character is replaced by this value, the original extent is sent
 	}
 	var txs []tx
 	var plan []e4Block
@@ -558,8 +559,27 @@ func (s *session) inbound(c *vh.Ctx, sentinelSys byte) {
 		case a < 86:
 			t.blk, t.class = plan[idx], "direction"
 			t.blk.hdr[0] ^= 0x80
-		case a < 92:
+		case a < 89:
 			t.blk, t.class, t.bad = plan[idx], "checksum", true
+		case a < 92:
+			// a length character corrupted while the sender transmits the ORIGINAL extent: downward
+			// (the frame read is the bare header, its "checksum" FF FF fails; the tail carries ENQ + a
+			// complete block image addressed to this receiver, or ENQ + garbage, or control
+			// characters) or upward. E4 7.8.5: one NAK after the line fell silent, nothing out of it.
+			img := e4Block{hdr: e4Encode(e4Fields{dev: s.dev, rbit: !s.equip, stream: 77, fn: 77, num: 1, ebit: true,
+				sys: [4]byte{4, byte(r.Intn(256)), byte(r.Intn(256)), byte(r.Intn(256))}}), body: randBytes(c, r.Intn(8))}
+			tail := append([]byte{chENQ}, e4Wire(img)...)
+			switch r.Intn(4) {
+			case 0:
+				tail = append([]byte{chENQ}, randBytes(c, 5+r.Intn(20))...)
+			case 1:
+				tail = []byte{chEOT, chACK, chNAK, chENQ, chEOT}
+			}
+			t.blk = e4Block{hdr: plan[idx].hdr, body: append(append([]byte{0xFF, 0xFF}, tail...), 0xEE)}
+			t.class, t.bad, t.lenFault = "length-down", true, 10
+			if r.Intn(4) == 0 {
+				t.class, t.lenFault = "length-up", 10+len(t.blk.body)+1+r.Intn(20)
+			}
 		default:
 			f := e4Fields{dev: s.dev, rbit: !s.equip, stream: 1 + r.Intn(8), fn: 1 + 2*r.Intn(60), sys: [4]byte{2, 0, 0, byte(r.Intn(4))}, ebit: r.Intn(3) != 0}
 			t.blk, t.class = e4Block{hdr: e4Encode(f), body: randBytes(c, r.Intn(5))}, "zero"
@@ -572,7 +592,10 @@ func (s *session) inbound(c *vh.Ctx, sentinelSys byte) {
 			continue
 		}
 		t.w = e4Wire(t.blk)
-		if t.bad {
+		switch {
+		case t.lenFault > 0:
+			t.w[0] = byte(t.lenFault)
+		case t.bad:
 			t.w[1+r.Intn(len(t.w)-1)] ^= byte(1 << r.Intn(8))
 		}
 		txs = append(txs, t)
@@ -631,12 +654,11 @@ func (s *session) inbound(c *vh.Ctx, sentinelSys byte) {
 	// sentinel: a lone valid message; once the handler has it, every earlier delivery has happened
 	sf := e4Fields{dev: s.dev, rbit: !s.equip, stream: 99, fn: 99, sys: [4]byte{0xEE, 0xEE, 0xEE, sentinelSys}, num: 1, ebit: true}
 	sblk := e4Block{hdr: e4Encode(sf)}
-	time.Sleep(4 * e2eT4) // the sentinel never continues an open message
+	// (block 1 with the E-bit always starts a new message, whatever is in progress: no pause needed)
 	if res := s.peer.sendRaw(e4Wire(sblk)); res != 'A' {
 		c.Fail(fmt.Sprintf("sentinel block answered %q", res), "")
 		return
 	}
-	clock += 1000
 	sentinelFrame := ref.accept(clock, 10, sblk)
 	deadline := time.Now().Add(10 * time.Second)
 	var got [][]byte
